@@ -34,7 +34,7 @@ def _run_case(job):
         if k in ('map_order_all', 'max_paths'):
             setattr(ex, k, v)
     t0 = time.time()
-    recs = ex.explore(case.full(), args_fn=(lambda e: list(case.args)), run_init=case.opts.get('run_init', False))
+    recs = ex.explore(case.full(), args_fn=(lambda e: list(case.args)), run_init=case.opts.get('run_init', case.pkg == 'crypto'))
     st = collections.Counter(r['status'] for r in recs)
     out = {'case': case.name, 'fn': case.fn, 'pkg': case.pkg, 'args': [a if isinstance(a, int) else str(a) for a in case.args],
            'paths': len(recs), 'status': dict(st), 'stats': ex.stats.asdict(),
